@@ -13,6 +13,7 @@ Definition map_ranges : list range_site := [
   ((sb "overlay_fs.go"), (sb "ReadDir"), (sb "merged"), RSorted);
   ((sb "stack.go"), (sb "EnvMap"), (sb "s.stack[i]"), RMerge);
   ((sb "stack.go"), (sb "GetMap"), (sb "t"), RMerge);
+  ((sb "stack.go"), (sb "Pop"), (sb "topMap"), RMerge);
   ((sb "template.go"), (sb "Fill"), (sb "passedData"), RMerge);
   ((sb "template.go"), (sb "Fill"), (sb "t.frontMatter"), RMerge);
   ((sb "template.go"), (sb "Fill"), (sb "t.vue.initialData"), RMerge);
